@@ -236,6 +236,7 @@ type c02SrcFlowResult struct {
 	badReturns []string // returns of a nil error with a non-EOF read error pending
 	sinks      []c02SrcSink
 	helpers    []*c02SrcFlowResult // read helpers it delegates to (already judged)
+	errEscapes string              // a same-package function the read error is handed to that is neither a filter nor a predicate
 	fn         *ssa.Function
 }
 
@@ -357,6 +358,8 @@ func c02SourceFlow(p *Prog, fn *ssa.Function, depth int) *c02SrcFlowResult {
 		}
 		readErrs = append(readErrs, rd.err)
 	}
+	filtered, escapes := c02FilteredErrors(p, fn, func(v ssa.Value) bool { return c02XCarriesAny(v, readErrs) })
+	res.errEscapes = escapes
 	const (
 		rdp     = 1 // a read error that is neither nil nor io.EOF may be pending
 		badsent = 2 // … and was matched against a sentinel other than io.EOF
@@ -375,6 +378,15 @@ func c02SourceFlow(p *Prog, fn *ssa.Function, depth int) *c02SrcFlowResult {
 		return st
 	}
 	ff.EdgeTransfer = func(from, to *ssa.BasicBlock, st uint64) uint64 {
+		if v, isNil, ok := c02NilTest(from, to); ok && isNil && len(filtered) > 0 && c02XCarriesAny(v, filtered) && !c02XCarriesAny(v, readErrs) {
+			// the result of an error-filter helper the read error was handed to is nil: the read error was nil or io.EOF
+			return mapStates(st, func(s int) int {
+				if s&badsent != 0 {
+					return s
+				}
+				return s &^ rdp
+			})
+		}
 		if v, isNil, ok := c02NilTest(from, to); ok && c02XCarriesAny(v, readErrs) {
 			if !isNil {
 				// paths on which the error was already found nil cannot take this edge
@@ -517,6 +529,10 @@ func c02ReportSourceFlow(p *Prog, r *Report, res *c02SrcFlowResult, rule, what s
 	if res.discarded != nil {
 		r.Violation(rule, construct, p.Pos(instrPos(res.discarded)),
 			"the error result of the read from the source is discarded "+what)
+		return
+	}
+	if len(res.badReturns) > 0 && res.errEscapes != "" {
+		r.Undecide("%s: the read error is handed to %s, whose treatment of it cannot be summarised; whether the success return at %s can be reached with a non-EOF error pending cannot be established", construct, res.errEscapes, res.badReturns[0])
 		return
 	}
 	r.Check(len(res.badReturns) == 0 && res.nRet > 0, rule, construct, p.Pos(res.fn.Pos()),
